@@ -67,7 +67,7 @@ func verifCheckRate(v string) {
 
 // C19 (R1) — every -rate value of L arbitrary ASCII bytes.
 //
-//verif:harness param.L=0..4 thorough.param.L=0..5 unwind=40 thorough.deadline=1500
+//verif:harness param.L=0..4 thorough.param.L=0..4 unwind=40 thorough.deadline=1500
 func verif_harness_C19_rate_bytes() {
 	L := verif_param("L")
 	b := verif_nondet_bytes("v", L)
